@@ -576,6 +576,37 @@ send_userauth_success = finish(Spec(
 send_userauth_success.no_replay = True       # coroutine with awaited collaborators; _acceptor is a plain attribute
 
 
+# ------------------------------------------------------------------------------------------------ IGNORE / UNIMPLEMENTED / DEBUG
+# "... or ignored and the session proceeds exactly as it would have without it" (RFC 4253 11.1-11.4): these three
+# handlers write no connection state at all and call nobody, except that DEBUG hands the text to the owner's
+# debug_msg_received callback (application code; a malformed text is a ProtocolError before that)
+def inert(c, *allowed):
+    return z3.And(phase_unchanged(c, '_username', '_session_id', '_auth_was_trivial'),
+                  z3.BoolVal(all(x['key'].endswith(tuple(allowed)) for x in c.calls()) if allowed else not c.calls()))
+
+
+process_ignore = finish(Spec(
+    'C06', 'connection', 'SSHConnection._process_ignore', self_class='SSHConnection', params=PARAMS,
+    classes=CLASSES, truthy=PACKET_TRUTHY, inline=dict(PACKET_INLINE), requires=pkt_wf,
+    always=[('IGNORE-changes-nothing', inert)], raises={'PacketDecodeError': True}))
+
+process_unimplemented = finish(Spec(
+    'C06', 'connection', 'SSHConnection._process_unimplemented', self_class='SSHConnection', params=PARAMS,
+    classes=CLASSES, truthy=PACKET_TRUTHY, inline=dict(PACKET_INLINE), requires=pkt_wf,
+    always=[('UNIMPLEMENTED-changes-nothing', inert)], raises={'PacketDecodeError': True}))
+
+process_debug = finish(Spec(
+    'C06', 'connection', 'SSHConnection._process_debug', self_class='SSHConnection', params=PARAMS,
+    classes=CLASSES, truthy=PACKET_TRUTHY, inline=dict(PACKET_INLINE), requires=pkt_wf,
+    stubs={'self._decode_utf8': may_raise(ret('str', 'msg'), 'UnicodeDecodeError'),
+           '*.debug_msg_received': noop('debug_msg')},
+    always=[('DEBUG-changes-nothing(only-the-owner-callback-sees-it)', lambda c: inert(c, '_decode_utf8',
+                                                                                       'debug_msg_received')),
+            ('malformed-DEBUG-never-reaches-the-owner', lambda c: z3.BoolVal(
+                c.raised is None or not c.calls('debug_msg_received')))],
+    raises={'PacketDecodeError': True, 'ProtocolError': True}))
+
+
 # ------------------------------------------------------------------------------------------------ kex method messages: role
 # "a message only the other role may send never takes effect": who sends which key-exchange method message is fixed
 # by the RFCs - the handler of a message the CLIENT sends may run only on a server and vice versa:
